@@ -509,7 +509,34 @@ func genPipeAdv(r *Rng, i int, tier string) string {
 		1+r.Intn(4), r.Intn(4), retry)
 }
 
+// genPipeBodies: every site serves bodies around the sniff window and the 2 MiB spool threshold (C02, C04):
+// big records take the WARC writer measurably long, which is what "finished implies captured" races against
+func genPipeBodies(r *Rng, i int, tier string) string {
+	s := fmt.Sprintf("site=%d w=%d mca=%d sched=%d seeds=%d mr=%d retry=0 mode=bodies", r.U64()%1000000, 1+r.Intn(3), 1+r.Intn(3), r.U64()%1000, 1+r.Intn(4), 1+r.Intn(3))
+	if r.Chance(30) {
+		s += " ondisk=1"
+	}
+	if r.Chance(30) {
+		s += " pool=2"
+	}
+	if r.Chance(30) {
+		s += " dedupe=1"
+	}
+	return s
+}
+
 func init() {
+	pb := *&Driver{
+		Name:     "pipebodies",
+		Header:   "From ZenoV Require Import Lib.Harness Tree.Item Stage.Pass Stage.PassHarness Pipe.PipeHarness.\nOpen Scope N_scope.\n",
+		CaseType: "ecase",
+		Footer:   stdFooter,
+		Rule:     "non-trivial: the crawl of a site with large / boundary-sized bodies ran to quiescence, a seed was fed back and a tree reached >= 3 nodes",
+		Gen:      genPipeBodies,
+		Exec:     execPipe,
+		Parallel: 6,
+	}
+	register(&pb)
 	pd := *&Driver{
 		Name:     "pipeadv",
 		Header:   "From ZenoV Require Import Lib.Harness Tree.Item Stage.Pass Stage.PassHarness Pipe.PipeHarness.\nOpen Scope N_scope.\n",
